@@ -340,9 +340,15 @@ func (c *context) RecvMsg() (*protocol.Message, error) {
 		c.cond.Wait()
 	}
 
-	m := c.repMsg
-	c.reqID = 0
-	c.repMsg = nil
+	var m *protocol.Message
+	if id == c.reqID {
+		// Only consume the reply (and retire the request) if it is
+		// still the request we were waiting for.  If a newer Send
+		// replaced it, that request's state is not ours to touch.
+		m = c.repMsg
+		c.reqID = 0
+		c.repMsg = nil
+	}
 	c.receiveWait = false
 	c.cond.Broadcast()
 
